@@ -170,7 +170,7 @@ def tasks_for(tier):
 def run(ctx):
     ctx.fn('sdeint(logqp=True)', 'check_contract (state augmentation)', 'SDELogqp.f_diagonal / g_diagonal / f_and_g_diagonal / f_general / g_general / f_and_g_general',
            'misc.stable_division', 'misc.batch_mvp', 'parse_return (increments)', 'every solver step')
-    ctx.stubs += ['Brownian motion: stub keyed by interval', 'Tensor.pinverse -> closed form (g^T g)^-1 g^T through the traced kernels (full column rank assumed, noise size <= 2)']
+    ctx.stubs += ['Brownian motion: stub keyed by interval', 'Tensor.pinverse -> closed form (g^T g)^-1 g^T (tall) / g^T (g g^T)^-1 (wide) through the traced kernels (full rank assumed, Gram matrix <= 2x2)']
     ctx.bounds = {'output intervals': 2, 'dims': 'd<=2, m<=2', 'exact constant case': 'every solver x noise type, affine f,g, symbolic constant vector c',
                   'integrand formula': 'Euler, all four noise types, quadratic f,g,h'}
     ctx.assumptions += ['|g| > 1e-7 (stable_division branch) / full column rank of g']
